@@ -158,6 +158,7 @@ Section ConcProofs.
   Definition pend_outs (sch : S) (lc : list bytes) (p : pend) : list gout :=
     match p with
     | PXAdd e c => [OutX (xeval sch (xcompile e) c)]
+    | PCAdd e => [OutC (xcompile e)]
     | PJsProgAdd j _ | PJsNode j _ | PJsNodeAdd j _ _ _ | PJsVmGet j _ _ | PJsRun j _ _ _ => [js_spec j lc]
     | _ => []
     end.
@@ -322,7 +323,7 @@ Section ConcProofs.
     destruct g as [todo live pd out ids]; simpl in *.
     destruct pd; simpl in *.
     - (* PIdle *)
-      destruct todo as [|[c| |e k|j] rest]; simpl in Hsp.
+      destruct todo as [|[c| |e k|e|j] rest]; simpl in Hsp.
       + gcases Hstep. auto.
       + inversion Hwf; subst. gcases Hstep; auto.
       + inversion Hwf; subst. gcases Hstep; simpl; auto.
@@ -334,6 +335,13 @@ Section ConcProofs.
           reflexivity.
         * split; [auto|]. split; [auto|]. rewrite <- Hsp. reflexivity.
         * split; [auto|]. split; [auto|]. rewrite <- Hsp, <- app_assoc. reflexivity.
+      + inversion Hwf; subst.
+        gcases Hstep.
+        * split; [auto|]. split; [auto|]. rewrite <- Hsp, <- app_assoc. simpl.
+          match goal with H : lru_get _ _ = (Some ?x, _) |- _ =>
+            destruct (lru_get_ok _ (h_xc h) e Hxc) as [Hv _]; rewrite H in Hv; rewrite (Hv x eq_refl) end.
+          reflexivity.
+        * split; [auto|]. split; [auto|]. exact Hsp.
       + inversion Hwf as [|? ? Hj Hrest]; subst. simpl in Hj.
         gcases Hstep.
         * match goal with H : lru_get _ _ = (Some ?x, _) |- _ =>
@@ -347,6 +355,7 @@ Section ConcProofs.
     - (* PAllocNew *) gcases Hstep. auto.
     - (* PReleasePut *) gcases Hstep. auto.
     - (* PXAdd *) gcases Hstep. split; [auto|]. split; [auto|]. rewrite <- Hsp, <- app_assoc. reflexivity.
+    - (* PCAdd *) gcases Hstep. split; [auto|]. split; [auto|]. rewrite <- Hsp, <- app_assoc. reflexivity.
     - (* PJsProgAdd *) gcases Hstep. auto.
     - (* PJsNode *)
       destruct Hpo as [Hc Hj].
@@ -391,17 +400,15 @@ Section ConcProofs.
   Proof.
     intros Hvm Hprog Hxc Hpo Hstep. unfold pend_ok in Hpo.
     destruct g as [todo live pd out ids]; simpl in *.
-    destruct pd; simpl in *; gcases Hstep; auto.
-    - (* xpath hit *)
-      split; [auto|split; [auto|]].
-      match goal with H : lru_get _ ?e = _ |- _ =>
-        destruct (lru_get_ok _ (h_xc h) e Hxc) as [_ Hc]; rewrite H in Hc; exact Hc end.
-    - (* js prog hit *)
-      split; [auto|split; [|auto]].
-      match goal with H : lru_get _ ?e = _ |- _ =>
-        destruct (lru_get_ok _ (h_prog h) e Hprog) as [_ Hc]; rewrite H in Hc; exact Hc end.
-    - split; [auto|split; [auto|]]. apply lru_add_ok; auto.
-    - split; [auto|split; [|auto]]. apply lru_add_ok; auto. apply Hpo.
+    destruct pd; simpl in *; gcases Hstep; auto;
+      try (split; [solve [auto]|split; [solve [auto]|]];
+           first [ match goal with H : lru_get (h_xc h) ?e = _ |- _ =>
+                     destruct (lru_get_ok _ (h_xc h) e Hxc) as [_ Hc]; rewrite H in Hc; exact Hc end
+                 | apply lru_add_ok; auto ]);
+      try (split; [solve [auto]|split; [|solve [auto]]];
+           first [ match goal with H : lru_get (h_prog h) ?e = _ |- _ =>
+                     destruct (lru_get_ok _ (h_prog h) e Hprog) as [_ Hc]; rewrite H in Hc; exact Hc end
+                 | apply lru_add_ok; auto; apply Hpo ]).
     - split; [|auto]. destruct (pool_get_ok r ch (h_vms h) Hvm) as [_ Hp].
       match goal with H : pool_get _ _ _ = _ |- _ => rewrite H in Hp end. exact Hp.
     - split; [|auto]. destruct Hpo as (Hc & Hj & Ha & Hm). subst.
@@ -767,4 +774,63 @@ Section ConcProofs.
     split; [exact Hnd|]. split; [exact Hinc|].
     rewrite Forall_forall in *. intros x Hx. split; [apply Hlow|apply Hle]; exact Hx.
   Qed.
+
+  (* ---- every step performs at most one of the listed atomic actions ------------------------------ *)
+  Notation act_apply := (act_apply S r).
+
+  Lemma gstep_one_action (h : hid) g ch : exists a, fst (gstep h g ch) = act_apply a h.
+  Proof.
+    destruct (gstep h g ch) as [h' g'] eqn:Hstep. simpl.
+    destruct g as [todo live pd out ids]; simpl in *.
+    destruct pd; simpl in *; gcases Hstep;
+      try (exists ANone; reflexivity);
+      try (exists AFetchAdd; reflexivity);
+      try (eexists (ANodePoolTake _); reflexivity);
+      try (eexists (ANodePoolPut _); reflexivity);
+      try (eexists (AXAdd _ _); reflexivity);
+      try (eexists (APAdd _ _); reflexivity);
+      try (eexists (ANAdd _ _); reflexivity);
+      try (eexists (AVmPut _); reflexivity);
+      try (match goal with H : lru_get (h_xc h) ?e = _ |- _ => exists (AXGet e); simpl; rewrite H; reflexivity end);
+      try (match goal with H : lru_get (h_prog h) ?e = _ |- _ => exists (APGet e); simpl; rewrite H; reflexivity end);
+      try (match goal with H : lru_get (h_node h) ?e = _ |- _ => exists (ANGet e); simpl; rewrite H; reflexivity end);
+      try (match goal with H : pool_get r ?c (h_vms h) = _ |- _ => exists (AVmTake c); simpl; rewrite H; reflexivity end).
+  Qed.
+
+  (* ---- schema creation ---------------------------------------------------------------------------- *)
+  Lemma spec_outs_compile sch lc es :
+    spec_outs sch lc (new_schema_ops es) = map (fun e => OutC (xcompile e)) es.
+  Proof. induction es as [|e es IH]; simpl; [reflexivity|]. f_equal. exact IH. Qed.
+
+  Lemma new_schema_ops_wf es : Forall op_wf (new_schema_ops es).
+  Proof. induction es; simpl; constructor; auto. exact I. Qed.
+
+  (* NewSchema running among ANY other goroutines (transforms, other NewSchema calls), from ANY
+     shared state satisfying the invariant, returns the pure validation function applied to its
+     own arguments and the compilation (a function of the text) of its own xpaths / regexps:
+     it reads nothing else, and (schema_readonly / inv_cstep) writes nothing but cache entries *)
+  Theorem new_schema_reads_args_only {A R} (validate : A -> list N -> R) (args : A)
+      sch opss (h : hid) c' i g es :
+    hid_ok sch h -> Forall (Forall op_wf) opss ->
+    interleave (h, map g_init opss) c' ->
+    nth_error opss i = Some (new_schema_ops es) -> nth_error (snd c') i = Some g -> finished g ->
+    new_schema_result validate args (g_out g) = validate args (map xcompile es).
+  Proof.
+    intros Hh Hwf Hil Hops Hg Hfin.
+    pose proof (interleaving_spec sch opss h c' Hh Hwf Hil) as H1.
+    destruct (Forall2_nth_error _ _ _ _ _ H1 Hg) as (ops' & Hops' & _ & Hsp).
+    rewrite Hops in Hops'. inversion Hops'; subst ops'.
+    rewrite (Hsp Hfin), spec_outs_compile. unfold new_schema_result. f_equal.
+    clear. induction es as [|e es IH]; simpl; [reflexivity|]. f_equal. exact IH.
+  Qed.
 End ConcProofs.
+
+(* ---- the process-wide variables of the sources are the components of the model -------------------- *)
+Lemma process_state_accounted : forallb var_ok OV.Gen.PkgVars.pkg_vars = true.
+Proof. vm_compute. reflexivity. Qed.
+
+Lemma shared_components_real : forallb component_real all_components = true.
+Proof. vm_compute. reflexivity. Qed.
+
+Lemma all_components_complete : forall c, In c all_components.
+Proof. intros []; simpl; auto 10. Qed.
